@@ -22,6 +22,8 @@ import (
 	"testing"
 	"time"
 
+	"google.golang.org/grpc/codes"
+
 	"github.com/nuetzliches/hookaido/internal/verifkit/runner"
 )
 
@@ -44,7 +46,7 @@ var alphaPlain = alphabet{Name: "plain", G1: "gamma-1-Tok", G2: "gamma-2-Tok", G
 var alphaNear = alphabet{Name: "near", G1: "tok", G2: "tokG", G3: "Gtok", A1: "tokA", A2: "Atok", B1: "TOKA", T1: "tokAx", T2: "okA", C1: "toka", Never: "to"}
 
 func (al alphabet) universe() []string {
-	return []string{al.G1, al.G2, al.G3, al.A1, al.A2, al.B1, al.T1, al.T2, al.C1, al.Never}
+	return append([]string{al.G1, al.G2, al.G3, al.A1, al.A2, al.B1, al.T1, al.T2, al.C1, al.Never}, oldTokens...)
 }
 
 func origin(c cfgSpec, tok string) string {
@@ -57,6 +59,8 @@ func origin(c cfgSpec, tok string) string {
 		return "routeB"
 	case member(tok, c.Admin):
 		return "admin"
+	case member(tok, oldTokens):
+		return "replaced-by-reload"
 	}
 	return "unconfigured"
 }
@@ -79,6 +83,11 @@ func behaviouralConfigs(r *runner.Run) []cfgSpec {
 	p := alphaPlain
 	// the table of the task statement (both tiers)
 	add(p, "split", "raw", [][]string{nil, {p.G1}, {p.G1, p.G2}}, [][]string{nil, {p.A1}}, [][]string{nil, {p.B1}}, [][]string{nil, {p.T1}})
+	// the same table reached through the production reload path from a configuration with other tokens
+	for _, s := range append([]cfgSpec{}, out...) {
+		s.Reload = true
+		out = append(out, s)
+	}
 	if r.Thorough() {
 		// larger and overlapping token sets: a route that re-declares a global token, two route tokens, three global tokens, two admin tokens
 		add(p, "split", "raw", [][]string{nil, {p.G1}, {p.G1, p.G2, p.G3}}, [][]string{{p.A1, p.A2}, {p.G2}}, [][]string{nil, {p.B1}, {p.A1}}, [][]string{{p.T1, p.T2}, {p.G1}})
@@ -527,8 +536,15 @@ func failure(cs caseSpec, ri refInfo, o outcome) (kind, msg string) {
 	if cs.Surface == "pull-grpc" {
 		refused = "Unauthenticated"
 	}
+	// docs/pull-api.md also lists 403 "token not in allowlist for this route": accepted as a refusal for a
+	// well-formed token that some OTHER list of the configuration contains (the property names 401 for
+	// missing, malformed and near-miss credentials only)
+	forbidden := o.Code == http.StatusForbidden
+	if cs.Surface == "pull-grpc" {
+		forbidden = o.Code == int(codes.PermissionDenied)
+	}
 	// a refusal never has an effect, whatever the verdict
-	if o.Rejected && (o.Changed || o.Leak) {
+	if (o.Rejected || forbidden) && (o.Changed || o.Leak) {
 		return "refused-but-acted", "the request was answered " + refused + " but queue/config state changed or queue data was returned"
 	}
 	if ri.Scope == "admin" && len(ri.Allow) == 0 {
@@ -542,14 +558,14 @@ func failure(cs caseSpec, ri refInfo, o outcome) (kind, msg string) {
 		if o.Leak {
 			return "unauthorized-read", "unauthorised request received queue data"
 		}
-		if ri.Strict && !o.Rejected {
+		if ri.Strict && !o.Rejected && !(forbidden && strings.HasPrefix(cs.Class, "other-token:") && configuredElsewhere(cs)) {
 			return "unauthorized-not-refused", fmt.Sprintf("unauthorised request to a configured endpoint was answered %d instead of %s", o.Code, refused)
 		}
 		if !ri.Strict && ri.Exists && o.Success {
 			return "unauthorized-success", fmt.Sprintf("unauthorised request (deviating spelling of a configured endpoint) was answered with success (%d)", o.Code)
 		}
 	case vAllow:
-		if ri.Strict && (o.Rejected || (cs.Surface != "pull-grpc" && o.Code == http.StatusForbidden)) {
+		if ri.Strict && (o.Rejected || forbidden) {
 			return "authorized-refused", fmt.Sprintf("request with a token of the effective allowlist in the documented form was refused (%d)", o.Code)
 		}
 	case vOpen:
@@ -560,6 +576,15 @@ func failure(cs caseSpec, ri refInfo, o outcome) (kind, msg string) {
 		}
 	}
 	return "", ""
+}
+
+// configuredElsewhere: the single documented-form token of the row is a member of some list of the configuration.
+func configuredElsewhere(cs caseSpec) bool {
+	if len(cs.Creds) != 1 {
+		return false
+	}
+	tok, strict, _ := bearerOf(cs.Creds[0])
+	return strict && member(tok, allTokens(cs.Cfg))
 }
 
 func kindOfEndpoint(cs caseSpec, ri refInfo) string {
@@ -632,7 +657,7 @@ func (k *checker) judgeCase(w *world, cs caseSpec) {
 	if ri.Verdict == vOpen && ri.Scope != "admin" || (!ri.Strict && ri.Verdict == vDeny) {
 		k.count(fmt.Sprintf("lenient-status %s %d", cs.Surface, o.Code))
 	}
-	if vname == "admin-unconfigured" {
+	if vname == "admin-unconfigured" && cs.Surface == "admin" {
 		if o.Rejected {
 			k.count("admin-unconfigured refused")
 		} else {
@@ -642,9 +667,6 @@ func (k *checker) judgeCase(w *world, cs caseSpec) {
 	if ri.Strict && (ri.Verdict == vDeny || ri.Verdict == vAllow) && k.firstOf("sample "+cs.Surface+" "+vname) {
 		r.Sample(map[string]any{"config": cs.Cfg.label(), "surface": cs.Surface, "request": requestLine(cs), "authorization": cs.Creds,
 			"class": cs.Class, "reference": vname, "observed_code": o.Code, "state_changed": o.Changed})
-	}
-	if os.Getenv("C11_DEBUG") != "" && (strings.HasPrefix(cs.Class, "exact") || cs.Class == "absent") && k.firstOf("dbg "+cs.Surface+cs.Method+cs.Target+cs.Endpoint+cs.Op+cs.Class+fmt.Sprint(len(ri.Allow) > 0)) {
-		fmt.Printf("DBG %-9s %-70s %-8s %-7s strict=%-5v code=%d changed=%v leak=%v\n", cs.Surface, requestLine(cs)[:min(70, len(requestLine(cs)))], cs.Class, vname, ri.Strict, o.Code, o.Changed, o.Leak)
 	}
 	kind, msg := failure(cs, ri, o)
 	if kind == "" {
@@ -819,6 +841,7 @@ func (k *checker) compileTable(specs []cfgSpec) {
 	r := k.r
 	dir := filepath.Join(runner.Scratch(), "compile-tok")
 	for _, s := range specs {
+		s.Reload = false
 		if !k.firstOf("compiled " + s.label()) {
 			continue
 		}
